@@ -311,6 +311,18 @@ def run(F, chk):
         chk.violation("R7.5", "C07/R7.5:FinalizeData", where(fin), "FinalizeData no longer rebuilds the header strings before a save")
     chk.floor(R5, 5)
 
+    # ------------------------------------------------------------------ R7.6 type table describes the blocks
+    import c06
+    R6 = chk.rule("R7.6", "the type table keeps describing the blocks: a type name is dropped only after the users of the type were "
+                          "counted on the unchanged table, and stored blocks are registered under their own GetBlockName()")
+    for fn, bad in c06.type_refcount_order(F):
+        chk.instance(R6, ok=not bad, sample={"fn": fn["name"], "counts_before_changing_table": not bad})
+        for n in bad[:1]:
+            chk.violation("R7.6", "C07/R7.6:%s" % fn["name"], where(fn, n),
+                          "%s changes blockTypeIndices before counting the remaining users of the old type: the saved type table names "
+                          "a type for a block that is of another type" % fn["name"])
+    chk.floor(R6, 2)
+
     chk.assumptions += ["sizes are re-measured on every save and never taken from the model, so R7.1 + R7.3 decide the size table "
                         "clause up to uint32 overflow", "header Get/Put layout agreement is decided under C01 (R1.3)"]
     chk.extra["explanation"] = ("byte-accounting pairing in NiOStream, single-writer census, save-protocol typestate and string-"
